@@ -1,0 +1,174 @@
+//go:build verif
+// +build verif
+
+package pbft
+
+// Verification shim (build tag "verif"): exported access to the unexported
+// pieces a deterministic, single-threaded harness needs in order to step a
+// ConsensusState exactly the way receiveRoutine does.
+
+import (
+	"errors"
+	"io"
+	"sync"
+	"time"
+
+	auto "github.com/dappledger/AnnChain/gemmill/modules/go-autofile"
+	sm "github.com/dappledger/AnnChain/gemmill/state"
+	"github.com/dappledger/AnnChain/gemmill/types"
+)
+
+// VerifTimeout is an exported copy of timeoutInfo.
+type VerifTimeout struct {
+	Duration time.Duration
+	Height   int64
+	Round    int64
+	Step     RoundStepType
+}
+
+// VerifTicker is a TimeoutTicker that records scheduled timeouts instead of
+// running a timer. Nothing is ever delivered on Chan(); the harness decides
+// when a recorded timeout "fires" by calling VerifStepTimeout.
+type VerifTicker struct {
+	mtx       sync.Mutex
+	scheduled []VerifTimeout
+	ch        chan timeoutInfo
+}
+
+func NewVerifTicker() *VerifTicker {
+	return &VerifTicker{ch: make(chan timeoutInfo)}
+}
+
+func (t *VerifTicker) Start() (bool, error)     { return true, nil }
+func (t *VerifTicker) Stop() bool               { return true }
+func (t *VerifTicker) Chan() <-chan timeoutInfo { return t.ch }
+func (t *VerifTicker) ScheduleTimeout(ti timeoutInfo) {
+	t.mtx.Lock()
+	t.scheduled = append(t.scheduled, VerifTimeout{ti.Duration, ti.Height, ti.Round, ti.Step})
+	t.mtx.Unlock()
+}
+
+// Take returns and clears the timeouts scheduled since the last call.
+func (t *VerifTicker) Take() []VerifTimeout {
+	t.mtx.Lock()
+	defer t.mtx.Unlock()
+	r := t.scheduled
+	t.scheduled = nil
+	return r
+}
+
+// VerifStart performs what OnStart does before it spawns receiveRoutine:
+// the WAL height-marker check, catchupReplay, and scheduling of round 0.
+// No goroutine is started. The replay error (which OnStart only logs) is returned.
+func (cs *ConsensusState) VerifStart() (replayErr error, err error) {
+	gr, found, err := cs.wal.group.Search("#HEIGHT: ", makeHeightSearchFunc(cs.Height))
+	if (err == io.EOF || !found) && cs.Step == RoundStepNewHeight {
+		rs := cs.RoundStateEvent()
+		cs.wal.Save(rs)
+	} else if err != nil {
+		return nil, err
+	}
+	if gr != nil {
+		gr.Close()
+	}
+	cs.timeoutTicker.Start()
+	replayErr = cs.catchupReplay(cs.Height)
+	cs.scheduleRound0(cs.GetRoundState())
+	return replayErr, nil
+}
+
+// VerifInternalLen is the number of messages waiting on the internal queue.
+func (cs *ConsensusState) VerifInternalLen() int { return len(cs.internalMsgQueue) }
+
+// VerifPeerLen is the number of messages waiting on the peer queue.
+func (cs *ConsensusState) VerifPeerLen() int { return len(cs.peerMsgQueue) }
+
+// VerifStepInternal takes one message from the internal queue and processes it
+// exactly as the corresponding receiveRoutine case does. It returns the message.
+func (cs *ConsensusState) VerifStepInternal() (ConsensusMessage, bool) {
+	select {
+	case mi := <-cs.internalMsgQueue:
+		rs := cs.RoundState
+		cs.wal.Save(mi)
+		cs.handleMsg(mi, rs)
+		return mi.Msg, true
+	default:
+		return nil, false
+	}
+}
+
+// VerifStepPeerQueue takes one message from the peer queue (filled by the
+// reactor's Receive) and processes it as receiveRoutine does.
+func (cs *ConsensusState) VerifStepPeerQueue() (ConsensusMessage, string, bool) {
+	select {
+	case mi := <-cs.peerMsgQueue:
+		rs := cs.RoundState
+		cs.wal.Save(mi)
+		cs.handleMsg(mi, rs)
+		return mi.Msg, mi.PeerKey, true
+	default:
+		return nil, "", false
+	}
+}
+
+// VerifStepPeer processes msg as if it had been received from peerKey.
+func (cs *ConsensusState) VerifStepPeer(msg ConsensusMessage, peerKey string) {
+	mi := msgInfo{msg, peerKey}
+	rs := cs.RoundState
+	cs.wal.Save(mi)
+	cs.handleMsg(mi, rs)
+}
+
+// VerifStepTimeout processes a timeout as receiveRoutine does.
+func (cs *ConsensusState) VerifStepTimeout(vt VerifTimeout) {
+	ti := timeoutInfo{vt.Duration, vt.Height, vt.Round, vt.Step}
+	rs := cs.RoundState
+	cs.wal.Save(ti)
+	cs.handleTimeout(ti, rs)
+}
+
+// VerifRoundState gives read access to the live RoundState (no copy).
+func (cs *ConsensusState) VerifRoundState() *RoundState { return &cs.RoundState }
+
+// VerifState returns the state-machine state the consensus currently builds on.
+func (cs *ConsensusState) VerifState() *sm.State { return cs.state }
+
+// VerifWALGroup exposes the WAL's file group (e.g. to set a small head size
+// limit so that rotation happens inside a height).
+func (cs *ConsensusState) VerifWALGroup() *auto.Group { return cs.wal.group }
+
+// VerifSetBehaviour overrides the proposal / prevote behaviour (Byzantine nodes).
+func (cs *ConsensusState) VerifSetBehaviour(decideProposal func(cs *ConsensusState, height, round int64), doPrevote func(cs *ConsensusState, height, round int64)) {
+	if decideProposal != nil {
+		cs.decideProposal = func(h, r int64) { decideProposal(cs, h, r) }
+	}
+	if doPrevote != nil {
+		cs.doPrevote = func(h, r int64) { doPrevote(cs, h, r) }
+	}
+}
+
+// VerifDefaultDecideProposal / VerifDefaultDoPrevote run the honest behaviour.
+func (cs *ConsensusState) VerifDefaultDecideProposal(h, r int64) { cs.defaultDecideProposal(h, r) }
+func (cs *ConsensusState) VerifDefaultDoPrevote(h, r int64)      { cs.defaultDoPrevote(h, r) }
+
+// VerifCreateProposalBlock exposes createProposalBlock.
+func (cs *ConsensusState) VerifCreateProposalBlock() (*types.Block, *types.PartSet) {
+	return cs.createProposalBlock()
+}
+
+// VerifSendInternal places a message on the internal queue (own messages).
+func (cs *ConsensusState) VerifSendInternal(msg ConsensusMessage) {
+	cs.sendInternalMessage(msgInfo{msg, ""})
+}
+
+// VerifPrivValidator returns the signer.
+func (cs *ConsensusState) VerifPrivValidator() PrivValidator { return cs.privValidator }
+
+// VerifClose stops the WAL (closes its files) without the service machinery.
+func (cs *ConsensusState) VerifClose() error {
+	if cs.wal == nil {
+		return errors.New("no wal")
+	}
+	cs.wal.Stop()
+	return nil
+}
